@@ -187,7 +187,13 @@ def recorded_labels(trace: list) -> list[tuple]:
     """[(t_us, actor_index, label tuple)] for the events the model makes visible; actor 0 = parent."""
     out = []
     iters = 0
+    # On an abort the parent terminates its workers at once; a worker can be killed between taking a task
+    # from the queue and writing its trace record, so worker records later than the abort are not a reliable
+    # account of what the workers did (the outcome is already decided at that point).
+    t_abort = min((t for t, actor, ev, _ in trace if actor == "parent" and ev == "abort"), default=None)
     for t, actor, ev, ident in trace:
+        if t_abort is not None and actor != "parent" and t > t_abort:
+            continue
         if actor == "parent":
             if ev == "iter":
                 iters += 1
@@ -584,6 +590,25 @@ def run(ctx):
             order = [r[3] for r in o["trace"] if r[2] == "deliver"] or list(c["ids"])
             o["delivered"].sort(key=lambda r: order.index(r[0]) if r[0] in order else len(order))
     res, stats = evaluate(ctx, cases, outs, brk, "cases")
+    # A run that ended in an abort can still carry a truncated worker account (a worker killed between its
+    # queue get and its trace write *before* another worker's later, recorded take).  Such a run is repeated:
+    # the disagreement is reported only if the same schedule disagrees every time.
+    stats["aborted_runs_repeated"] = 0
+    for attempt in range(2):
+        again = [i for i in res["agree"] if i not in res["holds"] and outs[i]["outcome"] == "raised"]
+        if not again:
+            break
+        stats["aborted_runs_repeated"] += len(again)
+        outs2 = core.run_impl("c12_runner.py", [cases[i] for i in again], timeout=600)
+        res2, _ = evaluate(ctx, [cases[i] for i in again], outs2, brk, f"again{attempt}")
+        for k, i in enumerate(again):
+            if outs2[k]["outcome"] == "skipped":
+                continue
+            outs[i] = outs2[k]
+            if k not in res2["agree"]:
+                res["agree"].remove(i)
+            if k in res2["holds"]:
+                res["holds"].append(i)
     (core.BUILD / "c12_last.json").write_text(json.dumps({"cases": cases, "outs": outs, "res": res}))
 
     bad_holds = sorted(res["holds"], key=lambda i: (cases[i]["src"] != "F1-slow-consumer", len(cases[i]["ids"]),
@@ -654,6 +679,7 @@ def run(ctx):
         "witness_search_incomplete": stats["witness_incomplete"],
         "max_time_inversion_us_in_witness": stats["max_inversion_us"],
         "trace_anomalies": stats["anomalies"][:5],
+        "aborted_runs_repeated": stats["aborted_runs_repeated"],
         "disagreements_checked": len(res["agree"]),
         "holds_false": len(res["holds"]),
         "schedules_by_source": hist,
